@@ -621,6 +621,82 @@ fn replay_daily_marks(sc: &Value) -> Value {
     json!({"status": "done", "missing": missing, "missing_culprit": culprit_missing, "marks": marks.len()})
 }
 
+fn replay_data_model_update(sc: &Value) -> Value {
+    use crate::database::query_language::data_model_parser::DataModel;
+    let old_text = sc["old_text"].as_str().unwrap();
+    let new_text = sc["new_text"].as_str().unwrap();
+    let ids = |v: &Value| -> String {
+        // canonical rendering of every storage id
+        let mut out: Vec<String> = vec![];
+        if let Some(nss) = v["namespaces"].as_object() {
+            for (_, ents) in nss {
+                for (en, e) in ents.as_object().unwrap() {
+                    out.push(format!("{}={}", en, e["short_name"]));
+                    for (fname, f) in e["fields"].as_object().unwrap() {
+                        out.push(format!("{}.{}={}:{}", en, fname, f["short_name"], f["field_type"]));
+                    }
+                }
+            }
+        }
+        out.sort();
+        out.join(";")
+    };
+    let mut accepted_any = false;
+    let mut refused_any = false;
+    let mut refused_changed_model = false;
+    let mut assignments: HashSet<String> = HashSet::new();
+    let mut reapply_refused = false;
+    let mut reapply_changes = false;
+    let mut id_changed = false;
+    let mut old_err = None;
+    for _ in 0..60 {
+        let mut dm = DataModel::new();
+        if let Err(e) = dm.update(old_text) {
+            old_err = Some(format!("{}", e));
+            break;
+        }
+        let before = serde_json::to_value(&dm).unwrap();
+        let before_ids = ids(&before);
+        match dm.update(new_text) {
+            Ok(()) => {
+                accepted_any = true;
+                let after = serde_json::to_value(&dm).unwrap();
+                let after_ids = ids(&after);
+                for item in before_ids.split(';') {
+                    if !item.is_empty() && !after_ids.split(';').any(|x| x == item) {
+                        id_changed = true;
+                    }
+                }
+                assignments.insert(after_ids.clone());
+                // restart on what was persisted, with the same model text
+                let text = serde_json::to_string(&dm).unwrap();
+                let mut dm2: DataModel = serde_json::from_str(&text).unwrap();
+                match dm2.update(new_text) {
+                    Ok(()) => {
+                        if ids(&serde_json::to_value(&dm2).unwrap()) != after_ids {
+                            reapply_changes = true;
+                        }
+                    }
+                    Err(_) => reapply_refused = true,
+                }
+            }
+            Err(_) => {
+                refused_any = true;
+                let after = serde_json::to_value(&dm).unwrap();
+                if after != before {
+                    refused_changed_model = true;
+                }
+            }
+        }
+    }
+    if let Some(e) = old_err {
+        return json!({"status": "precondition", "detail": e});
+    }
+    json!({"status": "done", "accepted": accepted_any && !refused_any, "mixed_verdicts": accepted_any && refused_any,
+           "refused_changed_model": refused_changed_model, "distinct_assignments": assignments.len() > 1,
+           "reapply_refused": reapply_refused, "reapply_changes": reapply_changes, "id_changed": id_changed, "id_collision": false})
+}
+
 pub fn dispatch(sc: &Value) -> Value {
     match sc["kind"].as_str().unwrap_or("") {
         "entity_mutation" => replay_entity_mutation(sc),
@@ -628,6 +704,7 @@ pub fn dispatch(sc: &Value) -> Value {
         "validate_node" => replay_validate_node(sc),
         "c12_mutation" => replay_c12_mutation(sc),
         "daily_marks" => replay_daily_marks(sc),
+        "data_model_update" => replay_data_model_update(sc),
         "c12_deletion" => replay_c12_deletion(sc),
         "validate_deletions_remote" => replay_validate_deletions_remote(sc),
         other => json!({"status": "unknown-kind", "kind": other}),
